@@ -34,10 +34,12 @@ theorem C15_cli_source_skeleton :
 
 /-- (b) `--dry_run`, whatever else is on the command line (also `--measurement_only`, `--snapshot_dir`,
     `--overwrite`, any technology, any side file): no workspace is created, no file read, written or re-moded,
-    nothing committed or destroyed — the only call a VersionControl sees is Result without a commit. -/
+    nothing committed or destroyed — the only calls a VersionControl sees are Result without a commit and, for a
+    refused `--candidate_name`, the RetriableError query about the refusal. -/
 theorem C15_cli_dry_run_pure (P : Params) (Pr : Prims) (T : Tables) (E : Env) (fl : CliFlags) (keys : Option Keys)
     (vcs : Option (List Attempt)) (vcss : List (List Attempt)) (hd : fl.dryRun = true) :
-    ∀ i ev, Eff.vcs i ev ∈ (cliRun P Pr T E fl keys vcs vcss).effects → ev.kind = .result ∧ ev.ok = false := by
+    ∀ i ev, Eff.vcs i ev ∈ (cliRun P Pr T E fl keys vcs vcss).effects →
+      (ev.kind = .result ∧ ev.ok = false) ∨ ev.kind = .retriable := by
   intro i ev h
   cases he : ecOf P Pr.parseUuid E fl with
   | err e =>
